@@ -297,10 +297,11 @@ func c13(c *orch.Ctx) (*report.Result, error) {
 			prevMutate := func(doc map[string]any) {}
 			variant := "other-engine-first"
 			seq := "cfg-warmprev.json,cfg-warm.json"
-			if warmIdx%4 == 3 && len(p.Config.Globs) > 1 {
+			if warmIdx%2 == 1 && len(p.Controllers) > 0 {
 				// the SAME config path both times; its first content only globs a part of the sources
 				variant = "same-config-path-other-globs-first"
-				prev.Globs = p.Config.Globs[:1]
+				c0 := p.Controllers[0]
+				prev.Globs = []string{"./" + p.Pkg(c0.Pkg).Dir + "/" + c0.Files[0]}
 				seq = "gleece.run.json<-cfg-warmprev.json,gleece.run.json<-cfg-warm.json"
 			} else if warmIdx%3 == 2 {
 				variant = "template-override-first"
